@@ -163,6 +163,10 @@ def odict_inv(d, K, V, F, j):
     return out
 
 
+class GhostReMatch(object):
+    """Stands for a successful re.match (truthy, not None); groups are not used by initglobals."""
+
+
 class InitGlobals(Unit):
     prop = 'C08'
     name = 'C08.initglobals.proof'
@@ -176,9 +180,10 @@ class InitGlobals(Unit):
 
     def setup(self, I):
         self.I = I
-        keys = loop_keys(minecraft.initglobals, 'minecraft.initglobals', kind=ast.For)
+        from .common import reachable_loops
+        keys = reachable_loops(minecraft.initglobals, None, kind=ast.For, depth=1)
         if len(keys) != 2:
-            raise Unsupported('contract does not fit the code any more: initglobals no longer has two loops')
+            raise Unsupported('contract does not fit the code any more: initglobals (with its direct helpers) no longer has two loops')
         unit = self
         Version = minecraft.Version
 
@@ -195,7 +200,7 @@ class InitGlobals(Unit):
                 return
             for o in (unit.KP, unit.PVI, unit.KMV, unit.SMV):
                 o.fresh()
-        I.loop_specs[keys[0]] = CheckedForSpec('records', lambda I_, it: it.n, elem1, inv1, havoc1, lambda j: unit.inv1(T(j)))
+        spec1 = CheckedForSpec('records', lambda I_, it: it.n, elem1, inv1, havoc1, lambda j: unit.inv1(T(j)))
 
         def elem2(I_, it, j):
             unit.J = j
@@ -211,11 +216,25 @@ class InitGlobals(Unit):
                 return
             for o in (unit.SP, unit.RMV, unit.RP):
                 o.fresh()
-        I.loop_specs[keys[1]] = CheckedForSpec('supported-items', lambda I_, it: it.n, elem2, inv2, havoc2, lambda j: unit.inv2(T(j)))
+        spec2 = CheckedForSpec('supported-items', lambda I_, it: it.n, elem2, inv2, havoc2, lambda j: unit.inv2(T(j)))
+
+        class ByRole(object):
+            # the loop over the records gets the first contract, the loop over the supported items the second -
+            # wherever the two loops are written (inline or in private helpers)
+            def run(self_, I_, node, frame):
+                it = I_.eval(node.iter, frame)
+                if isinstance(it, Records):
+                    return spec1.run(I_, node, frame)
+                if isinstance(it, ItemsView):
+                    return spec2.run(I_, node, frame)
+                raise Unsupported('initglobals contract: loop over %s has no contract' % type(it).__name__)
+        for k in keys:
+            I.loop_specs[k] = ByRole()
 
         def rematch(I_, pattern, s, *a):
             if isinstance(s, SInt):
-                return SBool(_isrel(s.t))
+                # a match object or None (decided per path), so that `if m:` and `m is not None` both mean the same
+                return GhostReMatch() if I_.truth(SBool(_isrel(s.t))) else None
             return re.match(pattern, s, *a)
         I.override(re.match, rematch, kind='assumed')
 
